@@ -1,0 +1,15 @@
+//go:build verif
+
+package inode
+
+import (
+	"github.com/mit-pdos/go-journal/common"
+)
+
+// VerifBlks returns a copy of the inode's block pointers (direct
+// blocks, then the indirect and the double-indirect root).
+func (ip *Inode) VerifBlks() []common.Bnum {
+	blks := make([]common.Bnum, len(ip.blks))
+	copy(blks, ip.blks)
+	return blks
+}
